@@ -10,7 +10,8 @@
   * `emit fx f` = `convert_to_schema(f)`; `fx = false` is typedpy's dialect (`multiplesOf`,
     list-valued `not`), `fx = true` the same emission with the two draft-4 spellings.
     `dialectFix` is the schema-position-aware two-rule rewrite the property statement allows;
-    `Lemmas/Schema.lean` proves `dialectFix (emit false f) = emit true f`.
+    `Lemmas/SchemaDialect.lean` proves `dialectFix (emit false f) = emit true f` for every
+    declaration.
   * `raises f` = the mapping raises (`NotImplementedError` for Deque / Anything / NoneField,
     `TypeError` for a non-String map key or a non-scalar enum literal).
   * `defsAcc` threads the `definitions_schema` dict in the code's write order
@@ -359,35 +360,41 @@ def dialectFix : PyVal → PyVal
   | .dict kvs => .dict (fixKws kvs)
   | other => other
 termination_by structural s => s
-/-- the keywords of one schema object -/
+/-- the keywords of one schema object (the keyword value is rewritten by a per-position function, so
+    that every equation of `fixKws` is unconditional) -/
 def fixKws : List (PyVal × PyVal) → List (PyVal × PyVal)
   | [] => []
   | (k, v) :: rest =>
     (if keyIs "multiplesOf" k then (PyVal.str "multipleOf", v)
-     else if keyIs "not" k then
-       (k, match v with
-           | .list ss => .dict [kw "anyOf" (.list (fixList ss))]
-           | .dict kvs => .dict (fixKws kvs)
-           | other => other)
-     else if keyIs "items" k then
-       (k, match v with
-           | .list ss => .list (fixList ss)
-           | .dict kvs => .dict (fixKws kvs)
-           | other => other)
-     else if keyIs "allOf" k || keyIs "anyOf" k || keyIs "oneOf" k then
-       (k, match v with
-           | .list ss => .list (fixList ss)
-           | other => other)
-     else if keyIs "properties" k || keyIs "patternProperties" k || keyIs "definitions" k then
-       (k, match v with
-           | .dict ps => .dict (fixProps ps)
-           | other => other)
-     else if keyIs "additionalProperties" k || keyIs "additionalItems" k then
-       (k, match v with
-           | .dict kvs => .dict (fixKws kvs)
-           | other => other)
+     else if keyIs "not" k then (k, fixNotV v)
+     else if keyIs "items" k then (k, fixItemsV v)
+     else if keyIs "allOf" k || keyIs "anyOf" k || keyIs "oneOf" k then (k, fixListV v)
+     else if keyIs "properties" k || keyIs "patternProperties" k || keyIs "definitions" k then (k, fixPropsV v)
+     else if keyIs "additionalProperties" k || keyIs "additionalItems" k then (k, dialectFix v)
      else (k, v)) :: fixKws rest
 termination_by structural kvs => kvs
+/-- the value of `not`: typedpy's list becomes `{anyOf: [...]}` -/
+def fixNotV : PyVal → PyVal
+  | .list ss => .dict [kw "anyOf" (.list (fixList ss))]
+  | .dict kvs => .dict (fixKws kvs)
+  | other => other
+termination_by structural v => v
+/-- the value of `items`: one schema or a list of schemas -/
+def fixItemsV : PyVal → PyVal
+  | .list ss => .list (fixList ss)
+  | .dict kvs => .dict (fixKws kvs)
+  | other => other
+termination_by structural v => v
+/-- the value of `allOf` / `anyOf` / `oneOf` -/
+def fixListV : PyVal → PyVal
+  | .list ss => .list (fixList ss)
+  | other => other
+termination_by structural v => v
+/-- the value of `properties` / `patternProperties` / `definitions` -/
+def fixPropsV : PyVal → PyVal
+  | .dict ps => .dict (fixProps ps)
+  | other => other
+termination_by structural v => v
 def fixList : List PyVal → List PyVal
   | [] => []
   | s :: ss => dialectFix s :: fixList ss
